@@ -9,6 +9,7 @@ import (
 	"github.com/LemoFoundationLtd/lemochain-core/common/log"
 	"github.com/LemoFoundationLtd/lemochain-core/common/rlp"
 	"github.com/LemoFoundationLtd/lemochain-core/store/leveldb"
+	"io"
 	"math/big"
 	"os"
 	"path/filepath"
@@ -441,16 +442,6 @@ func (context *RunContext) load() error {
 	return nil
 }
 
-func (context *RunContext) createFile() error {
-	f, err := os.Create(context.Path)
-	defer f.Close()
-	if err != nil {
-		return err
-	} else {
-		return nil
-	}
-}
-
 func (context *RunContext) Load() error {
 	isExist, err := FileUtilsIsExist(context.Path)
 	if err != nil {
@@ -458,12 +449,7 @@ func (context *RunContext) Load() error {
 	}
 
 	if !isExist {
-		err = context.createFile()
-		if err != nil {
-			return err
-		} else {
-			return context.Flush()
-		}
+		return context.Flush()
 	} else {
 		err := context.load()
 		if err != nil {
@@ -545,42 +531,37 @@ func (context *RunContext) encodeBody() ([]byte, error) {
 	return totalBuf, nil
 }
 
+// flush writes a new file and renames it to the context file. The context file is never written in place,
+// so if the process dies there is always a complete file, the old one or the new one
 func (context *RunContext) flush(headBuf, bodyBuf []byte) error {
-	file, err := os.OpenFile(context.Path, os.O_WRONLY, os.ModePerm)
-	defer file.Close()
-	if err != nil {
-		return err
-	}
-
-	_, err = file.Seek(0, 0)
+	tmpPath := context.Path + ".tmp"
+	file, err := os.Create(tmpPath)
 	if err != nil {
 		return err
 	}
 
 	n, err := file.Write(headBuf)
+	if err == nil && n != len(headBuf) {
+		err = io.ErrShortWrite
+	}
+	if err == nil {
+		n, err = file.Write(bodyBuf)
+		if err == nil && n != len(bodyBuf) {
+			err = io.ErrShortWrite
+		}
+	}
+	if err == nil {
+		err = file.Sync()
+	}
+	closeErr := file.Close()
 	if err != nil {
 		return err
 	}
-
-	if n != len(headBuf) {
-		panic("n != len(head data)")
+	if closeErr != nil {
+		return closeErr
 	}
 
-	_, err = file.Seek(int64(len(headBuf)), 0)
-	if err != nil {
-		return err
-	}
-
-	n, err = file.Write(bodyBuf)
-	if err != nil {
-		return err
-	}
-
-	if n != len(bodyBuf) {
-		panic("n != len(body data)")
-	}
-
-	return file.Sync()
+	return os.Rename(tmpPath, context.Path)
 }
 
 func (context *RunContext) Flush() error {
